@@ -12,12 +12,26 @@ class Sched:
         self.left = dict(counts)
         self.cv = threading.Condition()
         self.dead = False
+        self.done = {}
+
+    def _skip(self):
+        # slots of threads that have already finished (a run may pass fewer scheduling points than its solo run did)
+        while self.i < len(self.order) and self.done.get(self.order[self.i]):
+            self.i += 1
 
     def _wait(self, me):
+        self._skip()
         while not self.dead and self.left[me] > 0 and self.i < len(self.order) and self.order[self.i] != me:
-            if not self.cv.wait(timeout=20):
+            if not self.cv.wait(timeout=5):
                 self.dead = True
                 self.cv.notify_all()
+            self._skip()
+
+    def finish(self, me):
+        with self.cv:
+            self.done[me] = True
+            self._skip()
+            self.cv.notify_all()
 
     def start(self, me):
         with self.cv:
@@ -98,6 +112,8 @@ def run(scripts, order):
             with sched.cv:
                 sched.dead = True
                 sched.cv.notify_all()
+        finally:
+            sched.finish(t)
 
     ths = [threading.Thread(target=worker, args=(t,)) for t in range(len(scripts))]
     for th in ths:
@@ -198,7 +214,25 @@ def op_programs():
     def shared_grad_argnum(me, x, v):
         return G1(v, x) + G(x, v * 2.0)
 
-    progs = {"hvp_sort": hvp_sort, "grad_sort": grad_sort, "hvp_index": hvp_index, "nested_mixed": nested_mixed, "vjp_reuse": vjp_reuse,
+    # fine-grained scheduling points (every call / return of a Python function defined under autograd/numpy/ or in
+    # NumPy's einsum parser): programs whose rules go through rule-file helpers (einsum subscript parsing, FFT factor
+    # tables, tensordot axis bookkeeping) that a module-level cache or scratch variable would make thread-unsafe
+    EA = onp.array([[1.0, 2.0, 0.5], [-1.0, 0.3, 2.0], [0.7, -0.4, 1.1]])
+
+    def fine_einsum_a(me, x, v):
+        m = np.reshape(np.concatenate([x, x[:2] * x[1:3], x[:3]]), (3, 3))
+        return grad(lambda z: np.sum(np.einsum("ij,jk->ik", z, EA) * np.einsum("ij,jk->ik", EA, z)))(m).ravel()[:4]
+
+    def fine_einsum_b(me, x, v):
+        m = np.reshape(np.concatenate([x, x[:2] * x[1:3], x[:3]]), (3, 3))
+        return grad(lambda z: np.sum(np.einsum("ij,kj->ik", z, EA) * np.einsum("ij,kj->ik", EA, z)))(m).ravel()[:4]
+
+    def fine_fft(me, x, v):
+        m = np.reshape(np.concatenate([x, x * 2.0, x[::-1], x + 1.0]), (4, 4))
+        ax = me % 2
+        return grad(lambda z: np.sum(np.fft.irfft(np.fft.rfft(z, axis=ax) * (1.0 + 0.5j), axis=ax) * m))(m)[0]
+
+    progs = {"fine_einsum_a": fine_einsum_a, "fine_einsum_b": fine_einsum_b, "fine_fft": fine_fft, "hvp_sort": hvp_sort, "grad_sort": grad_sort, "hvp_index": hvp_index, "nested_mixed": nested_mixed, "vjp_reuse": vjp_reuse,
              "shared_grad": shared_grad, "shared_hvp": shared_hvp, "shared_jvp": shared_jvp, "shared_grad_argnum": shared_grad_argnum}
     return box, progs
 
@@ -219,9 +253,27 @@ def _lib_hook(box, me):
     return prof
 
 
+def _fine_hook(box, me):
+    def prof(frame, event, arg):
+        if event == "call" or event == "return":
+            fn = frame.f_code.co_filename
+            if "/autograd/numpy/" in fn or fn.endswith("einsumfunc.py"):
+                s = box[0]
+                if s is not None:
+                    s.point(me)
+
+    return prof
+
+
 def _run_prog(box, progs, n, t, x, v):
     import sys
 
+    if n.startswith("fine_"):
+        sys.setprofile(_fine_hook(box, t))
+        try:
+            return progs[n](t, x, v)
+        finally:
+            sys.setprofile(None)
     if n.startswith("shared_"):
         sys.setprofile(_lib_hook(box, t))
         try:
@@ -254,7 +306,7 @@ def op_level_probe(seed=0, max_schedules=1500):
 
     out = []
     names = sorted(progs)
-    pairs = [(a, b) for a in names for b in names if a <= b]
+    pairs = [(a, b) for a in names for b in names if a <= b and (a.startswith("fine_") == b.startswith("fine_"))]
     rng = random.Random(seed)
     for a, b in pairs:
         solo, counts = [], []
@@ -268,9 +320,30 @@ def op_level_probe(seed=0, max_schedules=1500):
         n0, n1 = counts
         # all interleavings of the yield points of the two threads (a thread's last segment is empty by construction)
         total = n0 + n1
-        combos = list(itertools.combinations(range(total), n0))
-        if len(combos) > max_schedules:
-            combos = rng.sample(combos, max_schedules)
+        import math
+
+        ncomb = math.comb(total, n0)
+        if ncomb <= max_schedules:
+            combos = list(itertools.combinations(range(total), n0))
+        else:
+            # too many interleavings to enumerate: seeded random ones, half of them 'bursty' (long runs of one thread, the
+            # pre-emption pattern that exposes torn updates of shared state)
+            combos = []
+            cap = min(max_schedules, 60 if total > 60 else max_schedules)
+            for q in range(cap):
+                if q % 2 == 0:
+                    combos.append(tuple(sorted(rng.sample(range(total), n0))))
+                else:
+                    order, left = [], [n0, n1]
+                    t = rng.randint(0, 1)
+                    while left[0] or left[1]:
+                        if not left[t]:
+                            t = 1 - t
+                        run_ = min(left[t], rng.randint(1, max(1, (n0 + n1) // 6)))
+                        order.extend([t] * run_)
+                        left[t] -= run_
+                        t = 1 - t
+                    combos.append(tuple(i for i, o in enumerate(order) if o == 0))
         bad = None
         nrun = 0
         for pos0 in combos:
@@ -292,6 +365,8 @@ def op_level_probe(seed=0, max_schedules=1500):
                     with sched.cv:
                         sched.dead = True
                         sched.cv.notify_all()
+                finally:
+                    sched.finish(t)
 
             ths = [threading.Thread(target=worker, args=(0, a)), threading.Thread(target=worker, args=(1, b))]
             for th in ths:
@@ -304,5 +379,5 @@ def op_level_probe(seed=0, max_schedules=1500):
             if not ok:
                 bad = {"schedule": order, "errors": errs, "scheduled": {t: (res[t].tolist() if t in res else None) for t in (0, 1)}, "solo": [s_.tolist() for s_ in solo]}
                 break
-        out.append({"programs": [a, b], "yield_points": counts, "schedules_run": nrun, "exhaustive": len(combos) == len(list(range(1))) or nrun == len(combos), "bad": bad})
+        out.append({"programs": [a, b], "yield_points": counts, "schedules_run": nrun, "exhaustive": ncomb <= max_schedules and nrun == ncomb, "bad": bad})
     return out
